@@ -354,6 +354,8 @@ class HistoryGen:
             k = r.choices(ks, [weights[x] for x in ks])[0]
             op = self.try_op(k)
             if op is not None:
+                if op["k"] in ("delay", "target", "add", "adddmm") and r.random() < 0.12:
+                    op["kw"] = True        # the call is written with keyword arguments (recorded as such)
                 return op
         return self.try_op("delay") or self.op_declare()
 
